@@ -434,7 +434,7 @@ func (area) Requires() string {
 }
 func (area) Check() string { return "check_case" }
 func (area) Rule() string {
-	return "timelines of 20-70 events (thorough: up to 200) over one SuspendableClock on a fake base clock: Advance (to/through armed deadlines, threshold-sized, 0, 1ns, random), Suspend/Resume nested up to 6 (rare Resume at 0), up to 3 concurrent contexts and 2 timers (timeouts from {0,1ns,threshold,threshold+1,0.5s,1s,2.5s,10s, random multiple of 100ms <= 10s}), parked-goroutine release (Arm), base timer firing with value in [deadline, now] (lateness and processing lag), Cancel, base-context expiry, maximum suspension timer firing, Stop, and storage calls through the 8 suspending decorator methods (ok/fail, eager/lazy buffers); configuration classes: threshold in {0 (5%), 1ns, 100ms, 1s, 20s > every timeout}, maximumSuspension in {0, 500ms, 2s, 1h}; the generator steers by running the implementation; non-trivial = at least one loop iteration re-armed after a suspension and at least one context or timer completed; distinct by hash of the full case term"
+	return "timelines of 20-70 events (thorough: up to 200) over one SuspendableClock on a fake base clock: Advance (to/through armed deadlines, threshold-sized, 0, 1ns, random), Suspend/Resume nested up to 6 (rare Resume at 0), up to 3 concurrent contexts and 2 timers (timeouts from {0,1ns,threshold,threshold+1,0.5s,1s,2.5s,10s, random multiple of 100ms <= 10s}), parked-goroutine release (Arm), base timer firing with value in [deadline, now] (lateness and processing lag), Cancel, base-context expiry, maximum suspension timer firing, Stop, and storage calls through the 8 suspending decorator methods (ok/fail, eager/lazy buffers); configuration classes: threshold in {0 (5%), 1ns, 100ms, 1s, 20s > every timeout}, maximumSuspension in {0, 500ms, 2s, 1h}; the generator steers by running the implementation; non-trivial = at least one loop iteration re-armed (a suspension was compensated) and at least one context or timer completed; distinct by hash of the full case term"
 }
 
 func (area) Generate(r *rng.R, thorough bool, index int) json.RawMessage {
@@ -459,7 +459,7 @@ func (area) Execute(raw json.RawMessage) (term string, info *hcommon.Info, err e
 		info.Events++
 		info.Ops[o.K]++
 		info.Outs[tag]++
-		if (tag == "rearm" || tag == "trearm") && w.susp >= 0 {
+		if tag == "rearm" || tag == "trearm" {
 			rearmed = true
 		}
 		if tag == "done-EDeadline" || tag == "done-ECanceled" || tag == "deliver" {
